@@ -53,6 +53,15 @@ def handle : List String → String
   | ["gen", cb, u3, b, e, draws] => match spaceOf cb u3, b.toNat?, e.toNat? with
       | some s, some b, some e => optN (s.genRandomId ⟨b, e⟩ (parseNats draws))
       | _, _, _ => "bad"
+  -- bounds of the successive randbelow calls (model), and the id computed by the same logged traversal
+  | ["genbounds", cb, u3, b, e, draws] => match spaceOf cb u3, b.toNat?, e.toNat? with
+      | some s, some b, some e =>
+          let (id, ns) := s.genRandomIdLog ⟨b, e⟩ (parseNats draws)
+          s!"{id} {natsStr ns}"
+      | _, _, _ => "bad"
+  | ["genleaves", cb, u3, b, e] => match spaceOf cb u3, b.toNat?, e.toNat? with
+      | some s, some b, some e => s!"{s.genLeaves ⟨b, e⟩} {s.subspaceSize ⟨b, e⟩}"
+      | _, _, _ => "bad"
   | ["sqlfilter", cb, u3, b, e, id] => match spaceOf cb u3, b.toNat?, e.toNat?, id.toNat? with
       | some s, some b, some e, some n => boolStr (s.sqlFilter ⟨b, e⟩ n)
       | _, _, _, _ => "bad"
